@@ -54,6 +54,7 @@ def shards(tier: str, seed: int):
     out.append(["tz"])
     out.append(["ambient"])
     out.append(["ticking"])
+    out.append(["dcskew"])
     out.append(["walk", 0])
     out.append(["walk", 1])
     out.append(["walk", 2])
@@ -293,6 +294,55 @@ def run_shard(shard, tier, seed, acc) -> None:
         acc.ev(n)
         acc.nt_counted(n)
         acc.sample({"cache primed with the envelope for": [ep, 0, 20], "clock at": [ep, 0, 19], "expected": "names (364,0,19) or tries the network"})
+    elif kind == "dcskew":
+        # a cache without the root key; the first protect fetches the key from a DC whose clock runs behind / ahead of the client's (within
+        # the 5 minutes Kerberos tolerates); every later protect on that cache that opens no connection is "taken from the cache" and names
+        # the client's interval
+        import dpapi_ng
+
+        from env import refdc, secctx, transport
+        from mc import vloop
+
+        rk, _, mod = _setup(seed)
+        SEC = 10**7
+        n = served = 0
+        for ep in (364, 400):
+            for base in (ep * 1024 * B + 7 * 32 * B + 13 * B, ep * 1024 * B + 8 * 32 * B, (ep + 1) * 1024 * B):
+                for skew in (-290 * SEC, -120 * SEC, -1, 0, 1, 120 * SEC, 290 * SEC):
+                    for first in (-60 * SEC, -1, 0):
+                        for api in ("sync", "async"):
+                            cache = dpapi_ng.KeyCache()
+                            dc = refdc.DC([rk], now=gkdi.interval(base + first + skew))
+                            for off in (first, -50 * SEC, -SEC, -1, 0, 1, SEC, 400 * SEC, -1, -B, B):
+                                tt = base + off
+                                dc.now = gkdi.interval(tt + skew)
+                                cs = ["dcskew", base, skew, first, api, off]
+                                with transport.network(dc) as hub, secctx.scripted_client(lambda u, p, **kw: secctx.ScriptedContext([b"C1"], 16)), seams.clock(tt):
+                                    kw = dict(root_key_identifier=rk.rkid, cache=cache, server="dc", username="u", password="p", auth_protocol="ntlm")
+                                    try:
+                                        r = (mod.ncrypt_protect_secret if api == "sync" else mod.async_ncrypt_protect_secret)(b"x", SID, **kw)
+                                        blob = r if api == "sync" else vloop.run(r)
+                                    except Exception as e:  # noqa: BLE001
+                                        acc.violate(f"dcskew.exc.{type(e).__name__}", cs, {"exc": repr(e)})
+                                        continue
+                                    rpc_used = bool(hub.attempts)
+                                n += 1
+                                kid = gkdi.unpack_keyid(cms.decode(bytes(blob)).keyid)
+                                got = (kid.l0, kid.l1, kid.l2)
+                                if rpc_used:
+                                    acc.outcome("dcskew:from-dc")
+                                    continue
+                                served += 1
+                                acc.outcome("dcskew:from-cache")
+                                if got != gkdi.interval(tt):
+                                    acc.violate("dcskew.interval", cs, {"named": got, "expected": gkdi.interval(tt), "dc_clock_minus_client_ticks": skew, "history_offsets": "first call at %d, then -50 s, -1 s, -1, 0, +1, +1 s, +400 s, -1, -1 interval, +1 interval" % first})
+                                elif cms.ref_decrypt(rk, bytes(blob)) != b"x":
+                                    acc.violate("dcskew.refdecrypt", cs, {})
+        acc.ev(n)
+        acc.nt_counted(served)
+        acc.states += n
+        acc.transitions += n
+        acc.sample({"DC clock minus client clock (ticks)": [-290 * SEC, -120 * SEC, -1, 0, 1, 120 * SEC, 290 * SEC], "protects served from the cache": served, "of": n})
     elif kind == "ticking":
         # the clock moves while the call runs: every read returns a later instant; the blob must name the interval of SOME instant
         # between the first and the last read (never a mixture of fields taken from different instants)
@@ -409,8 +459,8 @@ def replay(case_, seed, acc) -> None:
             v, oc = case(seed, tt, 0, api, cache=cache, source="seed")
     elif case_[0] == "seedt":
         v, oc = case(seed, int(case_[2]), 0, case_[3], cache=_seed_cache(seed, int(case_[1])), source="seed")
-    elif case_[0] == "ticking":
-        run_shard(["ticking"], "quick", seed, acc)
+    elif case_[0] in ("ticking", "dcskew"):
+        run_shard([case_[0]], "quick", seed, acc)
         for k in list(acc.violations):
             acc.violations[k] = [e for e in acc.violations[k] if e["case"] == case_]
             if not acc.violations[k]:
